@@ -34,6 +34,20 @@ def rand_area(rng, hearts, p_none=0.3, p_more_q=0.45, p_more_b=0.3, p_slot_none=
     return build_area(parts)
 
 
+def long_chain_area(rng, nops=None):
+    """A grammar-shaped area with tens to hundreds of operators (mostly empty slots, a few hearts)."""
+    if nops is None:
+        nops = rng.choice([20, 35, 40, 64, 100, 300])
+    parts = [[]]
+    parts[0].append(None if rng.random() < 0.8 else rng.choice([2, 13]))
+    for _ in range(nops):
+        if rng.random() < 0.7:
+            parts.append([None if rng.random() < 0.85 else rng.choice([2, 5, 13])])
+        else:
+            parts[-1].append(None if rng.random() < 0.85 else rng.choice([2, 5, 13]))
+    return build_area(parts)
+
+
 # --------------------------------------------------------------------------------- random programs
 def gen_random(rng, allow_input=True, nmin=3, nmax=14):
     """Random command sequences. A small per-program palette of (syllables, dots) pairs and hearts makes
@@ -54,7 +68,7 @@ def gen_random(rng, allow_input=True, nmin=3, nmax=14):
                 d = rng.choice([0, 1, 1, 2, 2, 3, 4, 6, rng.randint(0, 40)])
             else:
                 d = rng.choice([1, 1, 3, 3, 3, 4, 4, 5, 6, 2, rng.randint(1, 9)] + ([0, 0] if allow_input else []))
-        prog.append((t, h, d, rand_area(rng, pal_h)))
+        prog.append((t, h, d, rand_area(rng, pal_h) if rng.random() > 0.01 else long_chain_area(rng)))
     return prog
 
 
@@ -473,6 +487,24 @@ def read_fragment(rng):
     return [(5, 1, 0, ('?', 2, None)), (5, 1, 3, None)]
 
 
+def tmpl_handover_exit(rng):
+    """prefix ; read ; print ; program-requested exit (directly, in a multi-operand command, inside an area) ; commands
+    that must never run.  Also end of input reached in the middle (the read finds nothing)."""
+    p = rng.choice([[], gen_random(rng, False, 1, 5), tmpl_countdown(rng, iters=rng.choice([1, 2, 3])), print_chars([65, 66], 3, rng.choice([1, 2]))])
+    prog = list(p) + read_fragment(rng)
+    prog += print_chars([rng.choice([0x41, 0x7b, 0x0a])], 3, rng.choice([1, 2])) if rng.random() < 0.7 else []
+    s = rng.choice([1, 2])
+    k = rng.random()
+    if k < 0.35:
+        prog += [(0, 1, 2, None), (5, 1, s, None), (rng.choice([1, 2, 3, 4]), rng.choice([1, 2]), 3, None)]
+    elif k < 0.7:
+        prog += [(0, 1, 2, None), (5, 1, s, rng.choice([('?', None, 2), ('!', 3, None), ('?', ('!', None, 13), 2)]))]
+    else:
+        prog += [(5, 1, 0, None), (1, 3, 1, None), (5, 1, s, None), (1, 1, 3, None)]
+    prog += print_chars([0x5a], 3, 1)
+    return prog
+
+
 def state_fragment(rng):
     """Leaves something awkward on the stacks for the hand-over: NaN on a non-empty stack, a fraction, a
     negative value, a value on stack 0."""
@@ -680,7 +712,7 @@ def epilogue(rng, prog):
 
 
 # ------------------------------------------------------------------------------------------ stdin
-STDINS = ['', 'ab\n', 'a\nxyz\n', 'AB\nCCCC\nD \n', 'q\nrs\ntuv\n', '12 34\nxyz', '가나\n\n😀z\n', 'x', '\n', '\n\n', 'a\r\nb\r\n', '7 8', '1111 1234', '3 5\n',
+STDINS = ['', 'ab\n', '\n\n\nx\n\n', 'a\n\nb', '\n', 'x' * 300 + '\ny', 'a\nxyz\n', 'AB\nCCCC\nD \n', 'q\nrs\ntuv\n', '12 34\nxyz', '가나\n\n😀z\n', 'x', '\n', '\n\n', 'a\r\nb\r\n', '7 8', '1111 1234', '3 5\n',
           '\x00\x01\n\x7f\x80', '퟿￿\U00010000\U0010ffff\n', 'line1\nline2\nline3\nline4\nline5\n',
           '{}"\\\n%s\n', '\u0085 x\x0cy\x1cz\n']
 
@@ -729,6 +761,7 @@ TEMPLATES = {
 INPUT_TEMPLATES = {
     'stack0': lambda rng, ai: tmpl_stack0(rng),
     'handover': lambda rng, ai: tmpl_handover(rng),
+    'handover_exit': lambda rng, ai: tmpl_handover_exit(rng),
     'pending_return': lambda rng, ai: tmpl_pending_return(rng),
     'label_table': lambda rng, ai: tmpl_label_table(rng),
     'stack0_data': lambda rng, ai: tmpl_stack0_data(rng),
